@@ -215,6 +215,18 @@ Status(pos) == IF HasLegal(pos) THEN 0 ELSE IF InCheck(pos.bd, pos.stm) THEN 1 E
 \* same placement, side to move, castling rights and en-passant CAPTURABILITY
 Key(pos) == <<pos.bd, pos.stm, pos.cr, IF EpCapturable(pos, pos.ep) THEN pos.ep ELSE -1>>
 
+(***************************************************************************)
+(* Repetition.  RepCount is the requirement of C10: occurrences of the     *)
+(* current key in the history, now included, capped at three.  ScanCount   *)
+(* is the shape of the code's loop: from four plies back in steps of two,  *)
+(* comparing the reported hashes.                                          *)
+(***************************************************************************)
+RepCount(h) == Min(3, Cardinality({i \in 1..Len(h) : h[i].k = h[Len(h)].k}))
+ScanCount(h) == Min(3, 1 + Cardinality({i \in 1..Len(h) : i <= Len(h) - 4 /\ (Len(h) - i) % 2 = 0 /\ h[i].h = h[Len(h)].h}))
+
+\* a root is final when there is no legal move, the clock has run out, or the position occurred three times
+Final(p, h) == ~HasLegal(p) \/ p.hm >= 100 \/ RepCount(h) >= 3
+
 MirrorSq(s) == SqOf(File(s), 7 - Rank(s))
 MirrorPc(p) == IF p = 0 THEN 0 ELSE Pc(1 - ColorOf(p), TypeOf(p))
 MirrorCr(cr) == (cr % 4) * 4 + cr \div 4
